@@ -291,6 +291,10 @@ def method(kind):
             _METHODS[kind] = SqlMethod(
                 "SELECT t.id AS id, t.n AS n, t.s AS s FROM t "
                 "LEFT JOIN (SELECT id AS uid FROM t WHERE n = 1) AS u ON u.uid = t.id", order_by="id")
+        elif kind == "commented":
+            # a select text written over several lines, with line comments
+            _METHODS[kind] = SqlMethod("SELECT id, -- the key\n       n, s -- payload\nFROM t -- the only table\n",
+                                       order_by="id")
         elif kind == "count":
             # an aggregate without GROUP BY always gives exactly one row
             _METHODS[kind] = SqlMethod("SELECT count(*) AS cnt, max(id) AS top FROM t")
@@ -403,7 +407,7 @@ def run_case(ctx, rng):
             if rng.random() < 0.15:
                 # the select text itself has a nested select with a WHERE of its own (same rows: a left join
                 # on a unique column)
-                m = method("nested")
+                m = method("nested" if rng.random() < 0.5 else "commented")
                 ctx.count("queries_on_a_select_with_a_nested_where")
             if mode in ("one", "one_or_none"):
                 ctx.count("one_row_semantics_checked")
@@ -485,7 +489,7 @@ def run_case(ctx, rng):
         ctx.violation("bound-values-differ-from-condition-values", {"sql": sql, "params": params,
                                                                     "expected": want_params}, case)
     ctx.count("bound_values_checked", len(params))
-    sql_dyn = sql
+    sql_dyn = sql.replace(getattr(m, 'sql_select_from', None) or "\x00", "")   # (the method's own select text)
     for text, _ in STATICS:
         sql_dyn = sql_dyn.replace(text, "")   # static conditions are the caller's own text
     for p in want_params:
